@@ -58,6 +58,49 @@ def _whole_package(prop, root):
     return out
 
 
+def _seeds(prop, root):
+    """Independently written breaking changes filed under /verif/seeded for this property must stay reported."""
+    import shutil
+    import subprocess
+    import tempfile
+    from ..run import run_property
+    verif = os.path.dirname(os.path.dirname(os.path.dirname(os.path.abspath(__file__))))
+    sd = os.path.join(verif, "seeded")
+    out = []
+    if not os.path.isdir(sd):
+        return out
+    for name in sorted(os.listdir(sd)):
+        mp = os.path.join(sd, name, "meta.json")
+        if not os.path.exists(mp):
+            continue
+        try:
+            with open(mp) as f:
+                if json.load(f).get("property") != prop:
+                    continue
+        except Exception:
+            continue
+        tmp = tempfile.mkdtemp(prefix="sa_seed_")
+        try:
+            shutil.copytree(os.path.join(root, "fairlearn"), os.path.join(tmp, "fairlearn"),
+                            ignore=shutil.ignore_patterns("__pycache__", "*.pyc"))
+            r = subprocess.run(["patch", "-p1", "-s", "-d", tmp, "-i", os.path.join(sd, name, "patch.diff")],
+                               capture_output=True, text=True)
+            if r.returncode != 0:
+                out.append(dict(prop=prop, kind="mutant", file=name, note=f"seeded change {name}", outcome="skipped",
+                                why="patch does not apply to this tree"))
+                continue
+            buf = io.StringIO()
+            with contextlib.redirect_stdout(buf):
+                code = run_property(prop, "quick", tmp, 0, write=False)
+            first = [l.strip() for l in buf.getvalue().splitlines() if l.startswith("  ")][:1]
+            out.append(dict(prop=prop, kind="mutant", file=name, note=f"seeded change {name}", code=code,
+                            outcome={0: "silent", 1: "reported", 2: "analysis-error"}.get(code, "?"),
+                            first_report=(first[0][:200] if first else "")))
+        finally:
+            shutil.rmtree(tmp, ignore_errors=True)
+    return out
+
+
 def run_for(prop: str, root: str, seed: int, evidence_dir=None):
     t0 = time.time()
     items = [(p, k, rel, old, new, note, root) for (p, k, rel, old, new, note) in CORPUS if p == prop]
@@ -67,6 +110,7 @@ def run_for(prop: str, root: str, seed: int, evidence_dir=None):
     with mp.get_context("fork").Pool(n) as pool:
         res = pool.map(_one, items)
     res.extend(_whole_package(prop, root))
+    res.extend(_seeds(prop, root))
     mutants = [r for r in res if r["kind"] == "mutant" and r["outcome"] != "skipped"]
     refs = [r for r in res if r["kind"] == "refactor" and r["outcome"] != "skipped"]
     killed = [r for r in mutants if r["outcome"] == "reported"]
